@@ -310,3 +310,167 @@ def link_tail(rng):
     dest = "".join(rng.choice(["foo", "(", ")", "(bar", "a(b)c", "<", ">", "\"t", " ", "\\(", "\\)", "%28", "'", "((", "))", "x y"]) for _ in range(rng.randint(0, 4)))
     end = rng.choice(["", ")", ").", ") x", "x", "\n", ".", "))", ")(", " \"t\")", " 't'", ")\n\nnext"])
     return rng.choice(["see [x](", "![x](", "[a [b](", "*[x](", "[x][y](", "- [x]("]) + dest + end + rng.choice(["", "\n"])
+
+
+# ---------------------------------------------------------------- block-plugin syntax: tables, footnotes, task lists, definition lists, abbreviations
+# (used by corr_model.py for configurations that have these plugins: the stock generators reach their handlers too rarely)
+P_CELL = SLOT["C"] + ["x \\\\| y", ":-", "---", " a ", "\\|", "a\\\\", "[^1]", "[foo]", "`|`", "**b**", "||", "a\tb", "a\x0cb", "\\", "é", "　", "*x", "[a](/u)", "<b>", ""]
+P_ALIGN = ["---", ":--", "--:", ":-:", "-", ":", ":-:-", " --- ", ":--- ", "- -", "::", ":-- :", "", "=", "---\t", " :-: ", "-:", ":-", "--- ", "a"]
+P_KEYS = ["1", "a", "A", "note", "a b", "a  b", "ß", "x]", "", " ", "1\\]", "é", "long key here", "^"]
+P_TEXT = SLOT["T"] + ["[^1]", "[^a]", "[^A]", "[^note]", "[foo]", "*e [^1]*", "[l [^a]](/u)", "![i [^a]](/u)", "`[^1]`", "*x [^a] `y* z`", "*x [l [^1]](/u", "**s [^a]** [^1]", "<a> [^1] </a>",
+                     "[^1][^1]", "[^a b]", "[^A  B]", "[^x\\]]", "[^nope]", "[[^1]](/u)", "[^1]: x", "\\[^1]", "[^1](/u)", "[x][^1]", "![^1]", "_a [^1]_ __b [^a]__", "***[^1]***"]
+P_DEFBODY = ["{T}", "{T}\n    {T}", "{T}\n  {T}\n  {T}", "{T}\n\n    {T}", "{T}\n\n  {T}\n\n  {T}", "\n    {T}", "{T}\n   - {T}\n   - {T}", "{T}\n  > {T}", "{T}\n\n        code", "{T}\n \t{T}", "{T}\n    {T}\n\n\n    {T}",
+             "{T}\n  [foo]: /fn", "{T}\n   {T}\n {T}\n  {T}", "{T}\n{T}", "{T}\x0c  {T}\n  {T}", "", " ", "{T}\n  \n  {T}", "{T}\n   ```\n   {T}\n   ```"]
+
+
+def _pfill(rng, t):
+    while "{T}" in t:
+        t = t.replace("{T}", rng.choice(P_TEXT), 1)
+    return t
+
+
+def p_table(rng):
+    n = rng.randint(1, 4)
+    np_style = rng.random() < 0.4
+    wrap = (not np_style) or rng.random() < 0.15
+    clean = rng.random() < 0.6          # a well-formed table (escaped pipes, alignments, trailing blanks); otherwise anything goes
+    def row(k, al=False):
+        if clean:
+            cells = [rng.choice([":--", "--:", ":-:", "---", "-", ":---- "] if al else ["a", "bb", "x \\| y", "*e*", "1", "`c`", "a\\\\", "é", "[^1]", "c c", "&amp;", "\\|", "<b>"]) for _ in range(n)]
+            body = rng.choice([" | ", "|", " |", "| "]).join(cells)
+            if wrap or rng.random() < 0.05:
+                body = "|" + rng.choice(["", " "]) + body + rng.choice(["", " "]) + "|"
+            return rng.choice(["", "", " ", "   "]) + body + rng.choice(["", "", " ", "\t"])
+        cells = [(rng.choice(P_ALIGN[:4] + [" --- ", ":--- ", " :-: "]) if rng.random() < 0.8 else rng.choice(P_ALIGN)) if al else rng.choice(P_CELL) for _ in range(k)]
+        sep = rng.choice(["|", " | ", " | ", "| ", " |", "  |  "])
+        if al and np_style and rng.random() < 0.85:
+            cells[0] = cells[0].lstrip() or "-"
+        body = sep.join(cells)
+        r = rng.random()
+        if np_style and r < 0.8:
+            line = body
+        elif r < 0.9:
+            line = "|" + rng.choice(["", " "]) + body + rng.choice(["", " "]) + "|"
+        else:
+            line = rng.choice(["|" + body, body + "|", body])
+        return rng.choice(["", "", "", " ", "   ", "    "]) + line + rng.choice(["", "", "", " ", "\t", "  "])
+    def width():
+        return n if rng.random() < 0.88 else max(1, n + rng.choice([-1, 1]))
+    lines = []
+    if rng.random() < 0.25:
+        lines.append(rng.choice(WORDS))
+    lines.append(row(width()))
+    lines.append(row(width(), True))
+    for _ in range(rng.choice([0, 1, 1, 2, 2, 3])):
+        lines.append(row(n if rng.random() < 0.95 else width()))
+    if rng.random() < 0.3:
+        lines.append(rng.choice(["", "tail", "- x", "> q", "| z |", "a | b"]))
+    return "\n".join(lines) + rng.choice(["\n", "\n", "", "\n\n"])
+
+
+def p_footnotes(rng):
+    keys = [rng.choice(P_KEYS) for _ in range(rng.randint(1, 3))]
+    parts = []
+    def para():
+        ws = []
+        for _ in range(rng.randint(1, 5)):
+            r = rng.random()
+            if r < 0.45:
+                ws.append("[^%s]" % rng.choice(keys + ["1", "a"]))
+            elif r < 0.6:
+                ws.append(rng.choice(["*e [^%s]*", "[l [^%s]](/u)", "![i [^%s]](/u)", "**s [^%s]**", "*x [^%s] `y* z`", "*x [l [^%s]](/u", "[t [^%s]][foo]", "_a *b [^%s]* c_", "`[^%s]`"]) % rng.choice(keys))
+            else:
+                ws.append(rng.choice(WORDS))
+        return rng.choice(["", "", "# ", "> ", "- ", "1. "]) + " ".join(ws)
+    def definition():
+        k = rng.choice(keys + ["1", "a"])
+        if rng.random() < 0.3:
+            k = k.upper() if rng.random() < 0.5 else k + " "
+        lead = rng.choice(["", "", "", " ", "  ", "   ", "    "])
+        body = _pfill(rng, rng.choice(P_DEFBODY))
+        body = body.replace("\n", "\n" + lead) if lead and rng.random() < 0.7 else body
+        return lead + "[^%s]:%s%s" % (k, rng.choice([" ", " ", " ", "\t", "  ", ""]), body)
+    for _ in range(rng.randint(2, 6)):
+        r = rng.random()
+        if r < 0.45:
+            parts.append(para())
+        elif r < 0.9:
+            parts.append(definition())
+        else:
+            parts.append(rng.choice(["[foo]: /u 't'", "[fn]: /x", "---", "```", "    code"]))
+    seps = [rng.choice(["\n\n", "\n\n", "\n", "\n\n\n"]) for _ in parts]
+    return "".join(p + s for p, s in zip(parts, seps))
+
+
+P_TASK = ["- [ ] {T}", "- [x] {T}", "- [X] {T}", "* [ ] {T}", "+ [x]\t{T}", "1. [ ] {T}", "2) [x] {T}", "- [ ]{T}", "- [ ]", "- [x] ", "- [ ]  {T}", "-  [ ] {T}", "- [  ] {T}", "- [y] {T}", "- [] {T}", "- [ ]\x0c{T}",
+          "- [ ]　{T}", "- [x]\n  {T}", "- [ ] {T}\n  {T}", "- [ ] {T}\n\n  {T}", "- # [ ] {T}", "- > [ ] {T}", "- - [x] {T}", "- [ ] {T}\n  - [x] {T}\n    - [ ] {T}", "- {T}\n  - [ ] {T}", "- ```\n  [ ] {T}\n  ```",
+          "-     [ ] {T}", "- \\[ ] {T}", "- [x] [x] {T}", "> - [ ] {T}", "- [ ] [foo]: /u", "- [ ] | a | b |\n  |---|---|", "- \n  [ ] {T}", "-\t[ ] {T}", "- [ ] {T}\n{T}", "- [x] *{T}", "- [ ] `{T}"]
+
+
+def p_tasks(rng):
+    lines = [_pfill(rng, rng.choice(P_TASK)) for _ in range(rng.randint(1, 5))]
+    sep = rng.choice(["\n", "\n", "\n\n"])
+    return sep.join(lines) + rng.choice(["\n", "\n", ""])
+
+
+P_TERM = ["term", "{T}", "Apple", "a\nb", "term one\nterm two", "  indented", "- item", "> q", "# h", "t\x0cu", "\tt", "[foo]: /u", "x:", ":", "a : b", "| a | b |"]
+P_DD = [": {T}", ":   {T}", ":\t{T}", ": {T}\n{T}", ": {T}\n  {T}", ":   {T}\n\n    {T}", ": {T}\n\n  {T}\n\n      code", ": - {T}\n  - {T}", ":   - {T}\n    - {T}", ": > {T}", ": ```\n  {T}\n  ```", ":   {T}\n\n        {T}",
+        ": [foo]: /u", ": # {T}", ":{T}", ":  ", ": {T}  ", ": {T}\n \n", ": {T}\n\t{T}", ": {T}\n\n\t{T}", ":     {T}", ": {T}\n\n\n  {T}", ": 1. {T}\n   2. {T}", ": {T}\n: {T}", ": {T}\n\n: {T}", ": a:b\n  : c", ":    {T}\n     {T}", ": {T}\x0c:{T}"]
+
+
+def p_deflist(rng):
+    groups = []
+    for _ in range(rng.randint(1, 3)):
+        g = _pfill(rng, rng.choice(P_TERM)) + "\n"
+        if rng.random() < 0.2:
+            g += "\n"
+        dds = [_pfill(rng, rng.choice(P_DD)) for _ in range(rng.randint(1, 3))]
+        g += rng.choice(["\n", "\n", "\n\n"]).join(dds)
+        groups.append(g)
+    d = rng.choice(["\n", "\n\n", "\n\n", "\n \n"]).join(groups)
+    if rng.random() < 0.2:
+        d = rng.choice(WORDS) + "\n\n" + d
+    return d + rng.choice(["\n", "\n", "", "\n\ntail\n", "\ntail\n", "\n\n"])
+
+
+def p_abbr(rng):
+    keys = [rng.choice(["HTML", "W3C", "a b", "x", "C++", "Foo.*", "é", "HT", "[k]", "a\\]"]) for _ in range(rng.randint(1, 3))]
+    parts = []
+    for _ in range(rng.randint(2, 5)):
+        r = rng.random()
+        if r < 0.5:
+            parts.append(" ".join(rng.choice(keys + WORDS + ["*HTML*", "`HTML`", "[HTML](/u)", "HTMLHTML", "xHTMLx"]) for _ in range(rng.randint(1, 6))))
+        else:
+            parts.append(rng.choice(["", " ", "   ", "    "]) + "*[%s]:%s%s" % (rng.choice(keys), rng.choice(["", " ", "  ", "\t"]), rng.choice(["Hyper Text", "", " ", "t", "\n    indented text", "\n  two", "x\n"])))
+    return "".join(p + rng.choice(["\n", "\n\n"]) for p in parts)
+
+
+P_GENS = {"table": p_table, "footnotes": p_footnotes, "task_lists": p_tasks, "def_list": p_deflist, "abbr": p_abbr}
+
+
+def md_plugins(rng, plugins=None):
+    """one to three pieces of block-plugin syntax of the given plugins (default: all five), optionally mixed with token-level lines, put into a container, or whitespace-mutated"""
+    names = [p for p in (plugins or sorted(P_GENS)) if p in P_GENS] or sorted(P_GENS)
+    pieces = []
+    for _ in range(rng.choice([1, 1, 1, 2, 2, 3])):
+        r = rng.random()
+        if r < 0.8:
+            pieces.append(P_GENS[rng.choice(names)](rng))
+        else:
+            pieces.append(md_doc(rng, 3))
+    d = ""
+    for p in pieces:
+        if d and not d.endswith("\n"):
+            d += "\n"
+        if d and rng.random() < 0.7:
+            d += "\n"
+        d += p
+    r = rng.random()
+    if r < 0.12:
+        pre = rng.choice(["> ", "- ", "  ", "1. ", ">"])
+        cont = {"> ": "> ", "- ": "  ", "  ": "  ", "1. ": "   ", ">": ">"}[pre]
+        ls = d.split("\n")
+        d = "\n".join((pre if i == 0 else (cont if l or rng.random() < 0.5 else "")) + l for i, l in enumerate(ls))
+    if rng.random() < 0.1:
+        d = mutate_ws(rng, d)
+    return d
